@@ -88,7 +88,18 @@ def rand_grammar(rng):
             ln = rng.choice([0, 1, 2, 2, 3]) if nt != "start" else rng.choice([1, 2, 2, 3])
             alts.append([rand_item(rng, nts, len(lexemes), 0) for _ in range(ln)])
         rules.append({"lhs": nt, "alts": alts})
-    return {"start": "start", "rules": rules, "lexemes": lexemes}, letters
+    g = {"start": "start", "rules": rules, "lexemes": lexemes}
+    if rng.random() < 0.3:
+        # `%ignore` of a lexeme that may overlap the others (its id is the last one)
+        a = letters[0]
+        cand = rng.choice([rep(cls(" "), 1, -1), rep(cls(" " + letters[-1]), 1, -1), rep(lit(letters[-1]), 1, -1),
+                           lit(letters[-1]), cat(lit(" "), rep(lit(a), 0, 1))])
+        if rxgen.rx_text(cand) not in {rxgen.rx_text(x) for x in lexemes}:
+            g["lexemes"] = lexemes + [cand]
+            g["skip"] = len(lexemes)
+            if " " not in letters:
+                letters = letters + " "
+    return g, letters
 
 
 def lark_item(it):
@@ -115,7 +126,10 @@ def lark_text(g):
     for r in g["rules"]:
         lines.append(r["lhs"] + ": " + " | ".join(" ".join(lark_item(x) for x in alt) or '""' for alt in r["alts"]))
     for i, lx in enumerate(g["lexemes"]):
-        lines.append("T%d: /%s/" % (i, rxgen.rx_text(lx)))
+        if i == g.get("skip", -1):
+            lines.append("%%ignore /%s/" % rxgen.rx_text(lx))
+        else:
+            lines.append("T%d: /%s/" % (i, rxgen.rx_text(lx)))
     return "\n".join(lines) + "\n"
 
 
@@ -137,7 +151,7 @@ def reduced(g):
         for alt in r["alts"]:
             for x in alt:
                 walk(x)
-    return cfggen.is_reduced(g2) and used == set(range(len(g["lexemes"])))
+    return cfggen.is_reduced(g2) and used == set(range(len(g["lexemes"]))) - {g.get("skip", -1)}
 
 
 def _as_cfg(it):
